@@ -131,10 +131,13 @@ class Opt:
                  e: bool = False, s: str = 'dflt',
                  l: Optional[List[int]] = None,                # noqa: E741
                  t: Union[int, str, None] = None,
-                 u: Union[int, str, bool] = 7) -> None:
+                 u: Union[int, str, bool] = 7,
+                 m: Optional[Dict[str, int]] = None,
+                 n: Optional[List[str]] = None) -> None:
         self.a, self.b, self.c, self.d, self.e, self.s = a, b, c, d, e, s
         self.l = [] if l is None else l
         self.t, self.u = t, u
+        self.m, self.n = m, n       # an EMPTY collection is not None
 
     _yatiml_defaults = {'l': []}  # type: Dict[str, Any]
 
@@ -181,6 +184,29 @@ class Employee:
 
 class Company:
     def __init__(self, employees: Dict[str, Employee]) -> None:
+        self.employees = employees
+
+    @classmethod
+    def _yatiml_recognize(cls, node: yatiml.UnknownNode) -> None:
+        node.require_attribute('employees')
+
+    @classmethod
+    def _yatiml_savorize(cls, node: yatiml.Node) -> None:
+        node.map_attribute_to_index('employees', 'name', 'role')
+
+    @classmethod
+    def _yatiml_sweeten(cls, node: yatiml.Node) -> None:
+        node.index_attribute_to_map('employees', 'name', 'role')
+
+
+class Employee2:
+    """The key attribute is a string-like CLASS, the Dict key a plain str."""
+    def __init__(self, name: UStr, role: str) -> None:
+        self.name, self.role = name, role
+
+
+class Company2:
+    def __init__(self, employees: Dict[str, Employee2]) -> None:
         self.employees = employees
 
     @classmethod
@@ -390,6 +416,9 @@ MODELS = [
         ('u', [lambda: Opt(1, u='7'), lambda: Opt(1, u=7),
                lambda: Opt(1, u=True), lambda: Opt(1, u='True'),
                lambda: Opt(1, u=1)]),
+        ('m', [lambda: Opt(1, m={}), lambda: Opt(1, m={'k': 1})]),
+        ('n', [lambda: Opt(1, n=[]), lambda: Opt(1, n=['']),
+               lambda: Opt(1, n=[], m={})]),
         ('all', [lambda: Opt(1, 5, 7, 2.5, True, 'x', [1]),
                  lambda: Opt(1)]),
     ]),
@@ -410,6 +439,13 @@ MODELS = [
             lambda: Company({'Mary': Employee('Mary', 'Director'),
                              'Vishnu': Employee('Vishnu', 'Sales', 32)}),
             lambda: Company({'1e5': Employee('1e5', 'true')})]),
+    ]),
+    ('company2', Company2, [Company2, Employee2, UStr], [
+        ('employees', [
+            lambda: Company2({}),
+            lambda: Company2({'Mary': Employee2(UStr('Mary'), 'Director')}),
+            lambda: Company2({'a': Employee2(UStr('a'), 'x'),
+                              '1e5': Employee2(UStr('1e5'), 'true')})]),
     ]),
     ('lamp', Lamp, [Lamp, Light], [
         ('state', [lambda s=s: Lamp(s) for s in Light]),
@@ -522,6 +558,8 @@ COMBINE = {
         ('l', [{'l': [1]}, {'l': []}]),
         ('t', [{'t': 'None'}, {'t': 'null'}, {'t': 0}]),
         ('u', [{'u': '7'}, {'u': True}, {'u': 1}]),
+        ('m', [{'m': {}}, {'m': {'k': 1}}]),
+        ('n', [{'n': []}]),
     ]),
 }
 COMBINE_MODELS = [MODEL_IDX[n] for n in COMBINE]
